@@ -40,6 +40,7 @@ def c01_history(case):
 
     problems = []
     rng = np.random.default_rng(0)
+    zero_at = {1}
     for regimes, chi in ((["matrix_dislocation"] * 3, 0.3), (["matrix_dislocation", "max_viscosity", "min_viscosity", "frictional_yielding", "matrix_diffusion"], 0.4),
                          (["min_viscosity", "matrix_dislocation"], 0.3), (["frictional_yielding"] * 2, 0.0)):
         n = 30
@@ -52,7 +53,9 @@ def c01_history(case):
             before = [(a.copy(), b.copy()) for a, b in zip(m.orientations, m.fractions)]
             nb = len(m.orientations)
             try:
-                Fm = m.update_orientations(params, Fm, lambda t, x: GENERAL_L, (0.2 * k, 0.2 * (k + 1), lambda t: np.zeros(3)))
+                Lk = np.zeros((3, 3)) if (k in zero_at and len(regimes) == 3) else GENERAL_L  # a resting interval inside a history
+                with np.errstate(all="ignore"):
+                    Fm = m.update_orientations(params, Fm, lambda t, x: Lk, (0.2 * k, 0.2 * (k + 1), lambda t: np.zeros(3)))
             except Exception as e:  # noqa: BLE001
                 problems.append(f"{regimes} update {k} ({rg}) raised {type(e).__name__}: {e}")
                 break
@@ -163,6 +166,8 @@ def c06_defgrad(case):
         "constant L": (lambda t, x: GENERAL_L, lambda t: np.zeros(3)),
         "L(t)": (lambda t, x: GENERAL_L * (1 + 0.8 * np.sin(3 * t)) + np.array([[0, t, 0], [0, 0, 0], [0, 0, 0.0]]), lambda t: np.zeros(3)),
         "L(x(t))": (lambda t, x: GENERAL_L + np.outer(x, [0.5, -0.2, 0.1]), lambda t: np.array([t, 2 * t, -t])),
+        "pure spin": (lambda t, x: np.array([[0.0, -1.5, 0.4], [1.5, 0.0, 0.7], [-0.4, -0.7, 0.0]]), lambda t: np.zeros(3)),
+        "zero L": (lambda t, x: np.zeros((3, 3)), lambda t: np.zeros(3)),
     }
     for name, (Lf, xf) in flows.items():
         want = _rk4(Lf, xf, F0, 0.0, 0.5)
@@ -172,14 +177,16 @@ def c06_defgrad(case):
             params = _params(number_of_grains=10, phase_assemblage=(m.phase,), phase_fractions=(1.0,))
             Fm = F0.copy()
             for j in range(2):
-                Fm = m.update_orientations(params, Fm, Lf, (0.25 * j, 0.25 * (j + 1), xf))
+                with np.errstate(all="ignore"):
+                    Fm = m.update_orientations(params, Fm, Lf, (0.25 * j, 0.25 * (j + 1), xf))
             got[(fb, rg)] = Fm
             rel = np.abs(Fm - want).max() / np.abs(want).max()
             if rel > 5e-3 + 1e-3 * (2 + 2 * 1.0):
                 problems.append(f"{name}, {fb}/{rg}: relative error of the returned F is {rel:.3f}")
         ms = [_mineral("olivine", "olivine_A", "matrix_dislocation", 10, seed=2), _mineral("enstatite", "enstatite_AB", "matrix_dislocation", 10, seed=3)]
         params = _params(number_of_grains=10, phase_assemblage=(core.MineralPhase.olivine, core.MineralPhase.enstatite), phase_fractions=(0.7, 0.3))
-        Fb = pydrex.update_all(ms, params, F0.copy(), Lf, (0.0, 0.5, xf))
+        with np.errstate(all="ignore"):
+            Fb = pydrex.update_all(ms, params, F0.copy(), Lf, (0.0, 0.5, xf))
         rel = np.abs(Fb - want).max() / np.abs(want).max()
         if rel > 5e-3 + 1e-3 * 3:
             problems.append(f"{name}: bulk update returns F with relative error {rel:.3f}")
@@ -223,6 +230,27 @@ def c07_dispatch(case):
             pass
         if len(m.orientations) != 1 or len(m.fractions) != 1:
             problems.append(f"failed update in regime {rg} left {len(m.orientations)} snapshots")
+    # failures AFTER the first solver steps (late regime switch, callable raising at an interior time)
+    def late_regime(t, x):
+        return core.DeformationRegime.boundary_diffusion if t > 0.6 else core.DeformationRegime.matrix_dislocation
+
+    def raising_L(t, x):
+        if 0.6 < t < 0.95:
+            raise RuntimeError("velocity gradient unavailable")
+        return L
+
+    for label, kw, Lfun in (("late switch to an unsupported regime", dict(get_regime=late_regime), lambda t, x: L), ("callable raising at an interior time", {}, raising_L)):
+        m = _mineral(n=8)
+        m.update_orientations(_params(number_of_grains=8), np.eye(3), lambda t, x: L, (0.0, 0.2, lambda t: np.zeros(3)))
+        before = [(a.copy(), b.copy()) for a, b in zip(m.orientations, m.fractions)]
+        try:
+            m.update_orientations(_params(number_of_grains=8), np.eye(3), Lfun, (0.0, 1.0, lambda t: np.zeros(3)), **kw)
+            problems.append(f"{label}: update did not fail")
+        except Exception:  # noqa: BLE001
+            pass
+        if len(m.orientations) != len(before) or len(m.fractions) != len(before) or any(
+                not (np.array_equal(a, c) and np.array_equal(b, d)) for (a, b), c, d in zip(before, m.orientations, m.fractions)):
+            problems.append(f"{label}: failed update left {len(m.orientations)} snapshots (was {len(before)}) or altered them")
     return {"reproduced": bool(problems), "detail": sorted(set(problems))[:6] or "dispatch as documented"}
 
 
@@ -382,10 +410,12 @@ def c13_diagnostics(case):
     if not 0 <= ba <= 1:
         problems.append("coaxial index outside [0, 1]")
     F = np.array([[1.3, 0.4, 0.1], [0.0, 0.8, 0.5], [0.2, -0.3, 1.1]])
+    for Ft in (F, np.diag([1.1, 1.05, 0.3]), Q @ np.diag([0.9, 0.5, 0.4]) @ Q.T, np.diag([1.2, 1.2, 0.2]) @ Q, np.array([[1.0, 0.0, 0.0], [0.3, 0.6, 0.0], [0.0, 0.1, 0.5]])):
+        s_, v_ = dg.finite_strain(Ft)
+        w_, V_ = np.linalg.eigh(Ft @ Ft.T)
+        if not (np.isclose(s_, np.sqrt(w_[-1]) - 1) and abs(abs(v_ @ V_[:, -1]) - 1) < 1e-9):
+            problems.append("finite_strain is not the top eigenpair of F F^T (largest stretch - 1, long axis)")
     s, v = dg.finite_strain(F)
-    w, V = np.linalg.eigh(F @ F.T)
-    if not (np.isclose(s, np.sqrt(w[-1]) - 1) and abs(abs(v @ V[:, -1]) - 1) < 1e-9):
-        problems.append("finite_strain is not the top eigenpair of F F^T")
     s2, v2 = dg.finite_strain(F @ Q)
     s3, v3 = dg.finite_strain(Q @ F)
     if not (np.isclose(s2, s) and abs(abs(v2 @ v) - 1) < 1e-9 and np.isclose(s3, s) and abs(abs(v3 @ (Q @ v)) - 1) < 1e-9):
@@ -571,3 +601,125 @@ def c20_geometry(case):
         if not (np.allclose(T2, T, atol=1e-9) and np.allclose(T3, T, atol=1e-9)):
             problems.append(f"point_density[{kernel}]: depends on data order or on the sign of axial data")
     return {"reproduced": bool(problems), "detail": sorted(set(problems))[:6] or "geometry primitives correct on the replay inputs"}
+
+
+
+def c03_rates(case):
+    """pydrex.core.derivatives on random textures with non-uniform volumes (zeros, one dominant grain), all fabrics."""
+    from pydrex import core
+    from scipy.spatial.transform import Rotation
+
+    problems = []
+    rng = np.random.default_rng(13)
+    L = GENERAL_L / np.abs(np.linalg.eigvalsh((GENERAL_L + GENERAL_L.T) / 2)).max()
+    D = (L + L.T) / 2
+    n = 10
+    vols = [np.full(n, 1 / n), rng.dirichlet(np.ones(n)), np.r_[0.0, 0.0, rng.dirichlet(np.ones(n - 2))], np.r_[0.91, np.full(n - 1, 0.01)]]
+    for (ph, fb), rg, f in it.product([("olivine", "olivine_A"), ("olivine", "olivine_C"), ("olivine", "olivine_E"), ("enstatite", "enstatite_AB")], (4, 6), vols):
+        A = np.concatenate([Rotation.random(n - 2, random_state=3).as_matrix(), np.eye(3)[None], np.diag([-1.0, 1.0, -1.0])[None]])
+        args = (rg, getattr(core.MineralPhase, ph), getattr(core.MineralFabric, fb), n)
+
+        def run(M=125.0, phi=1.0):
+            return core.derivatives(*args, A.copy(), f.copy(), D, L, np.zeros((3, 3)), 1.5, 3.5, 5.0, M, phi)
+
+        try:
+            dA, df = run()
+        except Exception as e:  # noqa: BLE001
+            problems.append(f"{fb}/regime {rg}: raised {type(e).__name__}")
+            continue
+        if not (np.all(np.isfinite(dA)) and np.all(np.isfinite(df))):
+            problems.append(f"{fb}/regime {rg}: non-finite rates")
+            continue
+        sk = np.einsum("gij,gkj->gik", dA, A) + np.einsum("gij,gkj->gik", A, dA)
+        if np.abs(sk).max() > 1e-10:
+            problems.append(f"{fb}/regime {rg}: orientation rate is not A x skew spin")
+        if abs(df.sum()) > 1e-10:
+            problems.append(f"{fb}/regime {rg}: volume rates sum to {df.sum():.3e} for non-uniform volumes")
+        if np.any(df[f == 0] != 0):
+            problems.append(f"{fb}/regime {rg}: zero-volume grain has a non-zero rate")
+        if not (np.allclose(run(M=250.0)[1], 2 * df, atol=1e-12) and np.allclose(run(phi=0.5)[1], 0.5 * df, atol=1e-12) and np.all(run(M=0.0)[1] == 0)):
+            problems.append(f"{fb}/regime {rg}: volume rates not linear in mobility / phase fraction")
+        # growth criterion: energies recovered from a uniform-volume run (df_i = phi M f_i (Emean - E_i))
+        fu = np.full(n, 1 / n)
+        dfu = core.derivatives(*args, A.copy(), fu, D, L, np.zeros((3, 3)), 1.5, 3.5, 5.0, 125.0, 1.0)[1]
+        damp = 0.3 if rg == 6 else 1.0
+        rel = -dfu / (damp * 125.0 / n)  # E_i - mean(E)
+        wmean = float(f @ rel)
+        pos = f > 0
+        if np.any((df[pos] > 1e-12) != (rel[pos] < wmean - 1e-15)) and np.abs(rel[pos] - wmean).min() > 1e-9:
+            problems.append(f"{fb}/regime {rg}: a grain grows although its energy is not below the volume-weighted mean")
+    return {"reproduced": bool(problems), "detail": sorted(set(problems))[:6] or "rates conserve the texture manifold on the replay inputs"}
+
+
+def c19_config(case):
+    """Generated TOML files: every subset of the optional [output] keys and several [parameters] subsets."""
+    import os
+    import tempfile
+
+    import pydrex.io as pio
+    from pydrex import core, exceptions
+
+    d = tempfile.mkdtemp(prefix="c19_")
+    with open(os.path.join(d, "start.scsv"), "w") as f:
+        f.write("---\nschema:\n  delimiter: ','\n  missing: '-'\n  fields:\n    - name: X\n      type: float\n      fill: NaN\n    - name: Y\n      type: float\n      fill: NaN\n---\nX,Y\n1.0,2.0\n")
+    problems = []
+    P = core.MineralPhase
+    outs = {"raw_output": ['["olivine"]', "[]", None], "diagnostics": ['["enstatite"]', '["olivine", "enstatite"]', None], "log_level": ['"DEBUG"', None]}
+    cwd = os.getcwd()
+    os.chdir(d)
+    try:
+        for asm in (None, ["olivine", "enstatite"], ["enstatite", "olivine"]):
+            for ro, dg_, ll in it.product(*outs.values()):
+                lines = ["[input]", 'velocity_gradient = ["simple_shear_2d", "Y", "X", 5e-6]', 'locations_initial = "start.scsv"', "timestep = 1e9", "[output]"]
+                for k, v in (("raw_output", ro), ("diagnostics", dg_), ("log_level", ll)):
+                    if v is not None:
+                        lines.append(f"{k} = {v}")
+                lines.append("[parameters]")
+                if asm:
+                    lines += ["phase_assemblage = [" + ", ".join(f'"{a}"' for a in asm) + "]", "phase_fractions = [0.7, 0.3]"]
+                phases = tuple(getattr(P, a) for a in (asm or ["olivine"]))
+                with open("c.toml", "w") as f:
+                    f.write("\n".join(lines) + "\n")
+                valid = all(getattr(P, x.strip(' "')) in phases for v in (ro, dg_) if v for x in v.strip("[]").split(",") if x.strip())
+                try:
+                    cfg = pio.parse_config("c.toml")
+                except exceptions.ConfigError:
+                    if valid:
+                        problems.append(f"valid configuration rejected (assemblage {asm}, raw_output {ro}, diagnostics {dg_})")
+                    continue
+                except Exception as e:  # noqa: BLE001
+                    problems.append(f"{type(e).__name__} instead of a default / ConfigError (raw_output {ro}, diagnostics {dg_})")
+                    continue
+                if not valid:
+                    problems.append(f"invalid output phases accepted (assemblage {asm}, raw_output {ro}, diagnostics {dg_})")
+                    continue
+                o = cfg["output"]
+                if ro is None and tuple(o["raw_output"]) != phases:
+                    problems.append(f"raw_output default {o['raw_output']} != simulated phases")
+                if dg_ is None and tuple(o["diagnostics"]) != phases:
+                    problems.append(f"diagnostics default {o['diagnostics']} != simulated phases {phases} (raw_output {ro})")
+                if ll is None and o["log_level"] != "WARNING":
+                    problems.append("log_level default is not WARNING")
+                pr = cfg["parameters"]
+                if len(pr["phase_assemblage"]) != len(pr["phase_fractions"]) or abs(sum(pr["phase_fractions"]) - 1) > 1e-16:
+                    problems.append("parsed phase lists inconsistent")
+        # single-fault configurations must raise ConfigError
+        for extra in ('phase_fractions = [0.7, 0.31]', 'phase_fractions = [1.0]', 'phase_assemblage = ["olivine", "pyroxene"]', 'initial_olivine_fabric = "Z"'):
+            lines = ["[input]", 'velocity_gradient = ["simple_shear_2d", "Y", "X", 5e-6]', 'locations_initial = "start.scsv"', "timestep = 1e9", "[parameters]"]
+            if "assemblage" not in extra:
+                lines.append('phase_assemblage = ["olivine", "enstatite"]')
+            if "fractions" not in extra:
+                lines.append("phase_fractions = [0.7, 0.3]")
+            lines.append(extra)
+            with open("c.toml", "w") as f:
+                f.write("\n".join(lines) + "\n")
+            try:
+                pio.parse_config("c.toml")
+                problems.append(f"invalid configuration accepted: {extra}")
+            except exceptions.ConfigError:
+                pass
+            except Exception as e:  # noqa: BLE001
+                problems.append(f"{type(e).__name__} instead of ConfigError for: {extra}")
+    finally:
+        os.chdir(cwd)
+    return {"reproduced": bool(problems), "detail": sorted(set(problems))[:6] or "configurations parse with documented defaults"}
